@@ -2,6 +2,7 @@ package main
 
 import (
 	"fmt"
+	"runtime"
 	"sort"
 	"strings"
 	"time"
@@ -154,7 +155,9 @@ const shardID = models.ShardID(1)
 
 func openWorld(dir, prefix string) *world {
 	opt := &option.DatabaseOption{Intervals: option.Intervals{{Interval: timeutil.Interval(slotMs), Retention: timeutil.Interval(3000 * 24 * 3600 * 1000)}}, AutoCreateNS: true}
-	b, err := vbox.Open(dir, "db", opt, []models.ShardID{shardID})
+	var b *vbox.Box
+	var err error
+	withPoolWorkers(func() { b, err = vbox.Open(dir, "db", opt, []models.ShardID{shardID}) })
 	if err != nil {
 		vevid.Fatal("open engine: %v", err)
 	}
@@ -162,6 +165,23 @@ func openWorld(dir, prefix string) *world {
 	vbox.QueryTimeout = 5 * time.Second
 	day := time.Now().UTC().Truncate(24*time.Hour).UnixMilli() - 24*3600*1000
 	return &world{box: b, base: day + 10*3600*1000, prefix: prefix}
+}
+
+// withPoolWorkers runs an engine open with GOMAXPROCS raised: a database sizes its query worker pools by GOMAXPROCS
+// at creation, and a one-worker pool polls with sleeps whenever a stage submits its successor. The process itself runs
+// on ONE processor (the check sets GOMAXPROCS=1), so that the stages of a query never run in parallel: their
+// interleaving is not a dimension of this (sequential) check.
+func withPoolWorkers(open func()) {
+	old := runtime.GOMAXPROCS(4)
+	defer runtime.GOMAXPROCS(old)
+	open()
+}
+
+// reopen closes the engine and opens it again on the same directory.
+func (w *world) reopen() error {
+	var err error
+	withPoolWorkers(func() { err = w.box.ReopenEngine() })
+	return err
 }
 
 func (w *world) bothFamilies() timeutil.TimeRange {
@@ -207,7 +227,7 @@ func (w *world) isolate(c Case) error {
 	}
 	w.healReopens++
 	w.flushedSinceOpen = false
-	return w.box.ReopenEngine()
+	return w.reopen()
 }
 
 // apply runs the history on the real engine and on the model.
@@ -260,7 +280,7 @@ func (w *world) apply(c Case, metric string) (*model, error) {
 				}
 			}
 		case "R":
-			if err := w.box.ReopenEngine(); err != nil {
+			if err := w.reopen(); err != nil {
 				return nil, fmt.Errorf("step %d reopen: %w", i, err)
 			}
 			w.flushedSinceOpen = false
